@@ -5,16 +5,18 @@ Independently confirms a seeded defect produced by a sub-agent in a scratch work
 Then stores patch.diff, demo.rs, meta.json (with what was run) under /verif/seeded/<dest-id>/."""
 import json, os, shutil, subprocess, sys, re
 wt, n, dest = sys.argv[1], sys.argv[2], sys.argv[3]
+pkg = sys.argv[4] if len(sys.argv) > 4 else "conformance-tests"
+extra = sys.argv[5] if len(sys.argv) > 5 else ""
 src = os.path.join(wt, "seeded-out", n)
 env = dict(os.environ, CARGO_NET_OFFLINE="true")
 def sh(cmd, **kw):
     return subprocess.run(cmd, shell=True, cwd=wt, env=env, stdout=subprocess.PIPE, stderr=subprocess.STDOUT, text=True, **kw)
 meta = json.load(open(os.path.join(src, "meta.json")))
 demo_test = "seeded_demo_%s" % n
-demo_path = os.path.join(wt, "conformance-tests", "tests", demo_test + ".rs")
+demo_path = os.path.join(wt, pkg, "tests", demo_test + ".rs")
 if not os.path.exists(demo_path):
     shutil.copy(os.path.join(src, "demo.rs"), demo_path)
-demo_cmd = "cargo test -p conformance-tests --test %s --offline" % demo_test
+demo_cmd = "cargo test -p %s --test %s --offline %s" % (pkg, demo_test, extra)
 def passed(out):
     return re.search(r"test result: FAILED|error(\[E\d+\])?:|panicked", out) is None and "test result: ok" in out
 log = {}
